@@ -1,11 +1,12 @@
 #!/bin/bash
 # Runs every registered quick check against each behaviour-preserving refactoring in sa/neutral/*.diff
 # (produced by independent sub-agents; each passes the repository's test-suite). Every one must stay silent.
+# NEUTRAL_PROPS="C03 C04" restricts the run to some properties; SA_BIN selects the analyser binary.
 cd /verif
 bad=0; n=0
 for f in sa/neutral/*.diff; do
   n=$((n+1))
-  r=$(tools/patch_check.sh $f 2>&1)
+  r=$(tools/patch_check.sh $f ${NEUTRAL_PROPS:-} 2>&1)
   if echo "$r" | grep -q "RESULT silent"; then echo "silent   $(basename $f)"; else bad=$((bad+1)); echo "ALARM    $(basename $f)"; echo "$r" | head -8 | sed 's/^/    /'; fi
 done
 echo "neutral refactorings: $n, alarms: $bad"
